@@ -1196,6 +1196,11 @@ func genHostile(c *ctx) {
 		switch {
 		case r.Crashed != "":
 			c.violate(m.key(), "input from the other side crashed the "+m.role+" process: "+r.Crashed, detail)
+		case r.MaxRSSKB > c12RSSLimitKB && m.amplify:
+			// a decompression bomb: memory grows with the bytes actually received (zlib expands at
+			// most ~1000x), not "on the strength of a single length field" - outside what the
+			// property states; recorded as an observation in the evidence, not as a violation
+			c.count(fmt.Sprintf("observation:%s:%dMB", m.key(), r.MaxRSSKB/1024))
 		case r.MaxRSSKB > c12RSSLimitKB:
 			c.violate(m.key(), fmt.Sprintf("input from the other side made the %s process use %d MB (bound %d MB)", m.role, r.MaxRSSKB/1024, c12RSSLimitKB/1024), detail)
 		case r.Recovered != "":
